@@ -155,8 +155,18 @@ theorem ptoks_sub (l r : Expr) : ptoks (.bin .sub l r) = mulOpP l ++ opToks .sub
   simp [ptoks, binopToks, mulOpP]
 theorem ptoks_div (l r : Expr) : ptoks (.bin .div l r) = mulOpP l ++ opToks .div ++ divROpP r := by
   simp [ptoks, binopToks, mulOpP, divROpP]
-theorem ptoks_conv (l r : Expr) : ptoks (.bin .conv l r) = convLP l ++ opToks .conv ++ ptoks r := by
-  simp [ptoks, binopToks, convLP, wpP]
+theorem ptoks_conv (l r : Expr) (hr : r.isCond = false) :
+    ptoks (.bin .conv l r) = convLP l ++ opToks .conv ++ ptoks r := by
+  simp [ptoks, binopToks, convLP, wpP, hr]
+theorem not_cond_of_firstConv {b : Expr} (h : (firstConv b).isCond = false) : b.isCond = false := by
+  cases b with
+  | cond c t e => simp [firstConv, Expr.isCond] at h
+  | _ => simp [Expr.isCond]
+
+/-- operands with the same class are conditionals together -/
+theorem isCond_of_same {a b : Expr} (h : cls a = cls b) (hb : b.isCond = false) : a.isCond = false := by
+  rw [isCond_cls, h, ← isCond_cls]; exact hb
+
 theorem ptoks_plain {o : BinOp} (h : isPlainOp o = true) (l r : Expr) :
     ptoks (.bin o l r) = wpP l ++ opToks o ++ wpP r := by
   cases o <;> simp_all [isPlainOp, ptoks, binopToks, wpP]
@@ -264,8 +274,8 @@ theorem Idem.of_same {e : Expr} (hs : Same (canon e) e) (hna : e.isBinAdd = fals
     simp only [foldBin]
     rw [firstFactor_of_not_gen hg] at hok
     rw [ptoks_mul_general (by rw [isUnit_cls, isIdent_cls, hs.1, ← isUnit_cls, ← isIdent_cls]; exact hok), hs.mulOpP_eq]
-  · intro _ acc
+  · intro hfc acc
     rw [convR_single hnc]
     simp only [foldBin]
-    rw [ptoks_conv, hs.2]
+    rw [ptoks_conv _ _ (isCond_of_same hs.1 (not_cond_of_firstConv hfc)), hs.2]
 end NumbatModel.Printer
